@@ -794,7 +794,9 @@ class InterpBuiltins:
 
     def bi_no_effect(self, args, kw, line):
         """no_effect() : the ghost effect log is empty;  no_effect('send_start_process', ...) : none of these"""
-        self._effects_known()
+        if getattr(self, 'effects_unknown', None):
+            # iterations of an earlier loop emitted effects this path's log does not contain: the answer is unknown
+            return SV(self.run.fresh('no_effect_unknown', B), BOOL)
         if not args:
             return len(self.effects) == len(self.effects_base)
         return not any(nme in args for nme, _ in self.effects[len(self.effects_base):])
